@@ -641,40 +641,11 @@ func (r *EngineRunner) Exec(f []string) (res string) {
 			r.db.VerifActiveSize()+int64(datafile.GetLogRecordDiskSize(len(k), len(v))) > r.opts.DataFileSize {
 			return "skip"
 		}
-		aid, _ := r.db.VerifFileIDs()
-		target := datafile.GetFileName(r.dir(), aid, datafile.DataFileSuffix)
-		victim := -1
-		if ents, err := os.ReadDir("/proc/self/fd"); err == nil {
-			for _, e := range ents {
-				if t, err := os.Readlink("/proc/self/fd/" + e.Name()); err == nil && t == target {
-					victim = atoi(e.Name())
-				}
-			}
-		}
-		if victim < 0 {
+		var perr error
+		paid, _ := r.db.VerifFileIDs()
+		if !r.withRefusedWrites(datafile.GetFileName(r.dir(), paid, datafile.DataFileSuffix), func() { perr = r.db.Put(r.hk(k), r.hv(v)) }) {
 			return "skip"
 		}
-		saved, err := syscall.Dup(victim)
-		if err != nil {
-			return "skip"
-		}
-		ro, err := os.Open(os.DevNull)
-		if err != nil {
-			_ = syscall.Close(saved)
-			return "skip"
-		}
-		if err := syscall.Dup3(int(ro.Fd()), victim, 0); err != nil {
-			_ = ro.Close()
-			_ = syscall.Close(saved)
-			return "skip"
-		}
-		h1, h2 := fio.VerifEvent, kv.VerifFsEvent
-		fio.VerifEvent, kv.VerifFsEvent = nil, nil
-		perr := r.db.Put(r.hk(k), r.hv(v))
-		fio.VerifEvent, kv.VerifFsEvent = h1, h2
-		_ = syscall.Dup3(saved, victim, 0)
-		_ = syscall.Close(saved)
-		_ = ro.Close()
 		r.scribble()
 		if perr == nil {
 			r.fail("C01", "a Put whose write was refused by the operating system reported success")
@@ -973,6 +944,55 @@ func (r *EngineRunner) Exec(f []string) (res string) {
 		out := "ok " + Obs(v) + r.takeEvents(false)
 		r.keep(v, "Batch.Get("+f[2]+")")
 		return out
+	case "commitfail":
+		// E commitfail: the Commit of the open batch while the operating system refuses every write to the active file.
+		// The call must report the error, nothing of the batch may become visible, the batch is finished, and the
+		// database goes on: later batches commit as usual.  Only with standard I/O, when the batch holds records,
+		// nothing of it was flushed before and no rotation precedes its write.
+		{
+			if r.db == nil || r.batch == nil || r.ref.batchCommitted || r.opts.FileIOType != fio.StandardFIO || len(r.ref.bm) == 0 || r.ref.batchStart >= 0 {
+				return "skip"
+			}
+			need := int64(128)
+			puts := 0
+			for k, pv := range r.ref.bm {
+				n := 0
+				if pv != nil {
+					n = len(*pv)
+					puts++ // a staged Put is certainly a record of the batch (a Delete of an absent key is not)
+				}
+				need += 2 * int64(datafile.GetLogRecordDiskSize(len(k), n)+32)
+			}
+			// the batch holds the database lock: the size of the active file is read from the file system (standard I/O
+			// writes through), its id is the highest one in the directory
+			var asize int64 = -1
+			var amax uint32
+			if ents, err := os.ReadDir(r.dir()); err == nil {
+				for _, e := range ents {
+					var id uint32
+					if n, _ := fmt.Sscanf(e.Name(), "%d", &id); n == 1 && strings.HasSuffix(e.Name(), string(datafile.DataFileSuffix)) && (asize < 0 || id >= amax) {
+						if st, err := e.Info(); err == nil {
+							amax, asize = id, st.Size()
+						}
+					}
+				}
+			}
+			if asize < 0 || puts == 0 || asize+need > r.opts.DataFileSize {
+				return "skip"
+			}
+			var cerr error
+			if !r.withRefusedWrites(datafile.GetFileName(r.dir(), amax, datafile.DataFileSuffix), func() { cerr = r.batch.Commit() }) {
+				return "skip"
+			}
+			r.so.opKind = "other"
+			r.ref.batchCommitted = true
+			r.ref.inBatch = false
+			if cerr == nil {
+				r.fail("C04", "a Commit whose write was refused by the operating system reported success")
+				return "ok"
+			}
+			return "err io"
+		}
 	case "commit":
 		if r.ref.batchCommitted {
 			// a second Commit must be rejected without touching the database lock; run it
@@ -1777,4 +1797,42 @@ func (r *EngineRunner) withReadProbes(what string, run func() error) (error, int
 	// (the hooks are package variables read by the probing goroutines: reset once those have finished)
 	fio.VerifEvent, kv.VerifFsEvent, kv.VerifSched = savedEv, savedFs, nil
 	return err, probes, answeredDuring
+}
+
+// withRefusedWrites runs f while the descriptor of the active data file is replaced by a read-only one, so that
+// every write to it is refused by the operating system; false (f not run) when the descriptor cannot be found
+func (r *EngineRunner) withRefusedWrites(target string, f func()) bool {
+	victim := -1
+	if ents, err := os.ReadDir("/proc/self/fd"); err == nil {
+		for _, e := range ents {
+			if t, err := os.Readlink("/proc/self/fd/" + e.Name()); err == nil && t == target {
+				victim = atoi(e.Name())
+			}
+		}
+	}
+	if victim < 0 {
+		return false
+	}
+	saved, err := syscall.Dup(victim)
+	if err != nil {
+		return false
+	}
+	ro, err := os.Open(os.DevNull)
+	if err != nil {
+		_ = syscall.Close(saved)
+		return false
+	}
+	if err := syscall.Dup3(int(ro.Fd()), victim, 0); err != nil {
+		_ = ro.Close()
+		_ = syscall.Close(saved)
+		return false
+	}
+	h1, h2 := fio.VerifEvent, kv.VerifFsEvent
+	fio.VerifEvent, kv.VerifFsEvent = nil, nil
+	f()
+	fio.VerifEvent, kv.VerifFsEvent = h1, h2
+	_ = syscall.Dup3(saved, victim, 0)
+	_ = syscall.Close(saved)
+	_ = ro.Close()
+	return true
 }
